@@ -1,0 +1,20 @@
+//go:build verif && verif_btc
+
+package bitcoin
+
+// Verification hooks (build tags `verif` and `verif_btc`).
+// Expose-only; never called by library code.
+
+// VerifSignSchnorr exposes signSchnorr with caller-chosen aux randomness.
+func VerifSignSchnorr(aux *[32]byte, sk *SchnorrPrivateKey, msg []byte) ([]byte, error) {
+	return signSchnorr(aux, sk, msg)
+}
+
+// VerifVerifySchnorrSelf exposes verifySchnorrSelf for the key sk.
+func VerifVerifySchnorrSelf(sk *SchnorrPrivateKey, msg, sig []byte) bool {
+	return verifySchnorrSelf(sk.d, sk.PublicKey().Bytes(), msg, sig)
+}
+
+// VerifSchnorrSigningScalar returns a copy of the (possibly negated)
+// signing scalar d.
+func VerifSchnorrSigningScalar(sk *SchnorrPrivateKey) []byte { return sk.d.Bytes() }
